@@ -51,6 +51,11 @@ type RouteCase struct {
 	// delete operations when the case runs) that add and remove recorder
 	// machines while the messages of the same batch are still queued.
 	Spawn bool `json:"spawn,omitempty"`
+	// Ghost: the crew also holds a machine that has a state but no
+	// specification (a captain update that gave only a state, a spec that
+	// did not compile, a state file entry without a spec).  It cannot
+	// run, so it receives nothing - and must not get in anybody's way.
+	Ghost bool `json:"ghost,omitempty"`
 }
 
 var spawnPool = []string{"s1", "s2"}
@@ -200,6 +205,7 @@ func genRoute(t *rapid.T) RouteCase {
 	c.Mids = append(c.Mids, perm[:n]...)
 	_, repeatKnown := ev.IsKnown("C14", "C14/sio-repeated-list-member")
 	counter := 0
+	c.Ghost = rapid.IntRange(0, 3).Draw(t, "ghost") == 0
 	c.Spawn = rapid.IntRange(0, 2).Draw(t, "spawn") == 0
 	spawning = c.Spawn
 	defer func() { spawning = false }()
@@ -296,6 +302,13 @@ func checkRoute(c RouteCase) (v ev.Verdict) {
 			v.Failf("SetMachine %q: %v", mid, err)
 			return
 		}
+	}
+	if c.Ghost {
+		if err := cr.SetMachine(ctx, "ghost", nil, &core.State{NodeName: "start"}); err != nil {
+			v.Failf("SetMachine without a spec: %v", err)
+			return
+		}
+		v.Class("machine-without-spec")
 	}
 	wantLog := map[string][]string{}
 	live := append([]string{}, c.Mids...)
